@@ -9,6 +9,7 @@ INVARIANT DeMorgan
 INVARIANT Commute
 INVARIANT ShortCircuit
 INVARIANT ChainIsConjunction
+INVARIANT EqNeComplement
 INVARIANT DivModZero
 INVARIANT CaseInsensitive
 INVARIANT Deterministic
